@@ -487,7 +487,12 @@ func (o *Origins) SuccessCut(cond *Cond) bool {
 			ok = false
 		}
 		for _, r := range succ {
-			if reach, _ := ReachFromEntry(o.Fn, r, cut); reach {
+			rc := NewCut()
+			for e := range cut.Edges {
+				rc.Edges[e] = true
+			}
+			o.cutFailureSide(r, rc)
+			if reach, _ := ReachFromEntry(o.Fn, r, rc); reach {
 				ok = false
 				break
 			}
@@ -519,6 +524,7 @@ func (o *Origins) Requires(target ssa.Instruction, cond *Cond) (bool, string) {
 			}
 		}
 	}
+	o.cutFailureSide(target, cut)
 	reach, path := ReachFromEntry(o.Fn, target, cut)
 	if !reach {
 		return true, ""
@@ -797,4 +803,33 @@ func (o *Origins) reachableOnSuccessSide(call ssa.CallInstruction, r *ssa.Return
 	start.Idx++
 	reach, _ := Reach(start, PointOf(r), cut)
 	return reach
+}
+
+// cutFailureSide: target is a return that hands back, as its error, exactly the error result of a call K made in the
+// same function (`sigs, err := m.swap(..); log(err); return sigs, err`). Along a path through an edge on which K's
+// error is known to be non-nil the return reports that failure, so such paths are not ways to report success: the
+// edges are added to the cut.
+func (o *Origins) cutFailureSide(target ssa.Instruction, cut *Cut) {
+	r, ok := target.(*ssa.Return)
+	if !ok || len(r.Results) == 0 || !IsErrorType(r.Results[len(r.Results)-1].Type()) {
+		return
+	}
+	var call ssa.CallInstruction
+	switch x := r.Results[len(r.Results)-1].(type) {
+	case *ssa.Extract:
+		if c2, ok := x.Tuple.(*ssa.Call); ok {
+			call = c2
+		}
+	case *ssa.Call:
+		call = x
+	}
+	if call == nil || call.Block() == r.Block() {
+		return
+	}
+	for _, e := range o.AllEdges() {
+		f := o.EdgeFact(e)
+		if f != nil && f.Kind == "errnil" && !f.Pos && exIsCallResult(f.A, call) {
+			cut.Edges[e] = true
+		}
+	}
 }
